@@ -80,3 +80,6 @@ package rep
 //@   ensures name == protocol.OptionTTL ==> isnil(result1) && result0 == iface(s.ttl)
 //@
 // ---- end generated option contracts ----
+//@
+//@ func (*pipe).receiver
+//@   before go:close#1 assert m == nil || selidx == 1
